@@ -41,4 +41,25 @@ Definition build_image (f : fs) (users : list cuser) (groups : list cgroup) (run
   (muts : list mutation) : fres (fs * string) :=
   build_steps users groups muts build_image_steps (f, run_as).
 
+(* ---- with a base image (contents.baseimage, experimental; Go API only: the YAML
+   loader refuses accounts and paths next to a base image) ------------------------
+   buildImage guards the accounts step with `Contents.BaseImage == nil`
+   ([accounts_skipped_with_base_image], read from the source by shape): with a base
+   image mutateAccounts is NOT called — etc/passwd and etc/group of the tree are
+   left as they are, no home is made, run-as stays what was configured — while
+   WriteEtcApkoConfig and mutatePaths run as always. *)
+Definition build_step_b (has_base : bool) (users : list cuser) (groups : list cgroup) (muts : list mutation)
+  (name : string) (st : fs * string) : fres (fs * string) :=
+  if String.eqb name "mutateAccounts" && has_base && accounts_skipped_with_base_image then FOk st
+  else build_step users groups muts name st.
+Fixpoint build_steps_b (has_base : bool) (users : list cuser) (groups : list cgroup) (muts : list mutation)
+  (names : list string) (st : fs * string) : fres (fs * string) :=
+  match names with
+  | [] => FOk st
+  | n :: t => fdo st1 <- build_step_b has_base users groups muts n st; build_steps_b has_base users groups muts t st1
+  end.
+Definition build_image_b (has_base : bool) (f : fs) (users : list cuser) (groups : list cgroup) (run_as : string)
+  (muts : list mutation) : fres (fs * string) :=
+  build_steps_b has_base users groups muts build_image_steps (f, run_as).
+
 End Build.
